@@ -181,14 +181,13 @@ def reference(text, n_extra):
 
 
 def expected_table(rows, reset_index, n_extra):
+    """The table the rows spell.  With reset_index the library re-bases the ids; the statement fixes the fields only up
+    to that re-basing, so the expectation is marked and compare_table accepts ANY common integer offset applied to
+    every id and every non-root parent id (root parents stay -1)."""
     cols = ["id", "type", "x", "y", "z", "r", "pid"] + EXTRA_NAMES[:n_extra]
     tab = {c: [r[k] for r in rows] for k, c in enumerate(cols)}
     if reset_index and rows:
-        roots = [k for k, r in enumerate(rows) if r[6] == -1]
-        if roots:
-            rid = rows[roots[0]][0]
-            tab["id"] = [v - rid for v in tab["id"]]
-            tab["pid"] = [(-1 if k == roots[0] else v - rid) for k, v in enumerate(tab["pid"])]
+        tab["__rebased__"] = True
     return tab
 
 
@@ -251,9 +250,15 @@ def do_read(R, opt, data, tmp, attempt=False, **more):
 
 def compare_table(R, what, got, want, as_float32, ctx):
     ok = True
+    want = dict(want)
+    rebased = want.pop("__rebased__", False)
     n = len(want["id"])
     if not R.check(len(got["id"]) == n, "row-count", lambda: ctx() + f" rows={len(got['id'])} want {n}", f"{what}:row-count"):
         return False
+    if rebased and n:
+        off = want["id"][0] - got["id"][0]  # the offset the implementation chose (any integer is admissible)
+        want["id"] = [v - off for v in want["id"]]
+        want["pid"] = [-1 if v == -1 else v - off for v in want["pid"]]
     for c, wv in want.items():
         if c not in got:
             continue
